@@ -524,7 +524,7 @@ AGENTS = [None, '', 'x', '1x', 'Mozilla/5.0 (X11; Linux x86_64)', 'curl/8.5.0',
           _LONG_AGENT[:200] + ' Edg/120.0.1', _LONG_AGENT[:200] + ' Edg/120.0.2', _LONG_AGENT[:130] + 'A', _LONG_AGENT[:130] + 'B',
           'Curl/8.5.0']
 COOKIE_VARIANTS = ['same', 'same', 'same', 'none', 'uuid-altered', 'fp-altered', 'noslash', 'fp-own', 'garbage', 'empty',
-                   'other-name', 'fp-only']
+                   'other-name', 'fp-only', 'fp-prefix0', 'fp-prefix4', 'fp-prefix16', 'fp-longer', 'fp-case']
 
 
 def session_strategy():
@@ -598,7 +598,7 @@ class C20(Prop):
             'dropped/duplicated/extra fields, response damage, order, quoting; other schemes; no header), applied to direct '
             'calls of check_auth and basic_auth/digest_auth and to a controller using the documented idiom in the HTTP rig, '
             'judged by an independent RFC 2617 verifier reading the header text; session: 2-5 requests differing in cookie '
-            '(12 variants built from earlier issued sids), address and user agent; vhost: full product gateways x remote ip x '
+            '(17 variants built from earlier issued sids), address and user agent; vhost: full product gateways x remote ip x '
             'Host x X-Forwarded-Host x path (enumerated). non-trivial = (auth) header that parses as a Basic/Digest credential '
             'naming a user and must be refused, (session) an issued sid presented from a different fingerprint, (vhost) named '
             'gateways and a forwarded host, mapping elsewhere than Host, from an untrusted address; distinct = spec hash')
@@ -610,7 +610,7 @@ class C20(Prop):
                    'a client-invented, never issued sid that carries the presenting client\'s own fingerprint is kept by '
                    'circuits (it holds no data); only "no foreign data" is asserted for it',
                    'which 4xx/5xx or exception refuses a request is not asserted')
-    budget = {'quick': (2000, 4), 'thorough': (25000, 16)}
+    budget = {'quick': (2000, 4), 'thorough': (60000, 16)}
     enum_procs = 4          # the vhost product is 2800 cheap cases
 
     def setup(self):
@@ -898,6 +898,16 @@ class C20(Prop):
                     cookie = base.split('/', 1)[0] + '/' + (mine.split('/', 1)[1] if '/' in mine else '')
                 elif variant == 'fp-only':
                     cookie = '/' + (base.split('/', 1)[1] if '/' in base else '')
+                elif variant.startswith('fp-prefix'):
+                    # an issued sid whose fingerprint part is abbreviated: never issued in this form, and whatever the
+                    # server makes of it, it must not become an id that two different clients share
+                    u, f = base.split('/', 1) if '/' in base else (base, '')
+                    cookie = u + '/' + f[:int(variant[9:])]
+                elif variant == 'fp-longer':
+                    cookie = base + '0'
+                elif variant == 'fp-case':
+                    u, f = base.split('/', 1) if '/' in base else (base, '')
+                    cookie = u + '/' + f.upper()
                 elif variant == 'garbage':
                     cookie = 'zz/zz'
                 elif variant == 'empty':
